@@ -228,6 +228,23 @@ def c10_r5(ctx):
         extra = [a for c in dnf for a in c if a[0] in ('bool', 'cmp') and 'flush_and_restart' not in str(a[1])]
         if extra:
             ctx.viol('%s|conditional-feedback' % nx.path, sends[0][1]['at'], 'the state feedback is sent only under %s' % show_dnf([frozenset(extra)]), None)
+    # the round counter is re-armed on every path that finishes the loop (condition false OR bound reached):
+    # nested loops re-run the same leader for every outer round
+    nsym = q.sym(facts, nx)
+    finish = [(bi, s) for bi, s in q.aggregates(nx, SE, 'Item') if s['lhs'] == [0]]
+    zero_next = [bi for bi, si, f, s in q.self_writes(nx, 'iteration_index') if render(strip(nsym.rvalue(s['rv']))) == '0_usize']
+    zero_fr = [bi for bi, si, f, s in q.self_writes(fr, 'iteration_index') if render(strip(fsym.rvalue(s['rv']))) == '0_usize']
+    some_fr = [bi for bi, blk in enumerate(fr.blocks) if not blk['cleanup'] for s in blk['s']
+               if s['k'] == 'assign' and s['lhs'] == [0] and not (s['rv']['r'] == 'agg' and s['rv'].get('v') == 'None')]
+    ok_reset = any(nx.dominates(z, fb) for z in zero_next for fb, _ in finish) or \
+        (bool(some_fr) and any(all(fr.dominates(z, sb) for sb in some_fr) for z in zero_fr))
+    ctx.inst('IterationLeader|counter re-armed', {'resets in next': len(zero_next), 'resets in final_result': len(zero_fr), 'finish returns': [s['at'] for _, s in finish]})
+    if not finish:
+        raise AnchorMissing('IterationLeader::next has no `return Item(state)`')
+    if not ok_reset:
+        ctx.viol('%s|counter-not-rearmed' % nx.path, finish[0][1]['at'],
+                 'iteration_index is not reset to 0 on every path on which the loop finishes (condition false or bound reached): the '
+                 'next execution of a nested loop would start counting from the leftover value and stop before its bound/fixed point', None)
     inc = [s for blk in nx.blocks for s in blk['s'] if s['k'] == 'assign' and s['rv']['r'] == 'bin' and s['rv']['op'] in ('AddWithOverflow', 'Add')
            and 'iteration_index' in render(strip(q.sym(facts, nx).rvalue(s['rv'])))]
     if len(inc) != 1:
@@ -268,4 +285,16 @@ def c04_r6(ctx):
         if not q.cond_has(dnf, lambda a: a[0] == 'is' and 'input_receiver' in a[1] and a[2] == 'None'):
             ctx.viol('%s|blocking-with-input' % wu.path, t['at'],
                      'the blocking recv on the state channel is reachable while an input receiver is still present (conditions: %s)' % show_dnf(dnf), None)
-    # IterationLeader::process_updates: Terminate ends the leader (checked in C10.R5); do_work loop exit (C20.R3)
+    # Iterate is the only consumer of the (bounded) feedback channel: it must poll it in every activation, also while
+    # it is still re-emitting the current round, otherwise the body's End blocks on a full channel and the cycle deadlocks
+    nx = facts.method(ITERATE, 'next', trait=OP)
+    sym = q.sym(facts, nx)
+    polls = [(bi, t) for bi, t in nx.calls() if (t['callee'].get('path') or '').endswith('::try_recv') and 'feedback_receiver' in render(strip(sym.operand(t['args'][0])))]
+    rets = nx.return_blocks()
+    ctx.inst('Iterate::next|feedback poll', {'try_recv sites': [t['at'] for _, t in polls], 'return blocks': len(rets)})
+    if not polls:
+        ctx.viol('%s|no-feedback-poll' % nx.path, nx.at, 'Iterate::next never polls the feedback channel without blocking', None)
+    elif not all(any(nx.dominates(pb, r) for pb, _ in polls) for r in rets):
+        ctx.viol('%s|feedback-poll-skipped' % nx.path, polls[0][1]['at'],
+                 'Iterate::next can return an element without having drained the feedback channel in this activation: while a large round '
+                 'is being re-emitted nobody reads the bounded feedback edge, the body\'s End blocks on it and the loop deadlocks', None)
